@@ -317,11 +317,58 @@ def r3_regex(ctx) -> None:
     if isinstance(kws["add_escaped"], ast.BinOp) and unparse(kws["add_escaped"].right) == "custom_escaped":
         r.ok("C05.R3", f.qual, "backend-specific extra characters are added, not substituted", f.loc)
     g = prog.func("sigma.processing.transformations.values.RegexTransformation.apply_string_value")
-    src = unparse(g.node)
-    if "re.escape(sc)" in src and "re.escape(c)" in src and "regex += '.*'" in src and "regex += '.'" in src and "isinstance(sc, Placeholder)" in src:
-        r.ok("C05.R3", g.qual, "string parts through re.escape, wildcards → '.*' / '.', placeholders refused", g.loc)
+    # the sibling rendering interpreted (sa.tabulate, Proxy; `re` is the only library) on a stand-in string for each method
+    import re as _re0
+    from ..tabulate import Proxy as _P0, call_method as _cm0, Raised as _R0
+    RT = "sigma.processing.transformations.values.RegexTransformation"
+
+    class SpecialChars:
+        def __init__(self, n): self.n = n
+        def __repr__(self): return self.n
+    SpecialChars.WILDCARD_MULTI, SpecialChars.WILDCARD_SINGLE = SpecialChars("<*>"), SpecialChars("<?>")
+    class Placeholder:
+        def __init__(self, name): self.name = name
+    class SigmaRegularExpression:
+        def __init__(self, regexp, flags=None, *a, **k): self.regexp, self.flags = regexp, set(flags or ())
+    class SigmaRegularExpressionFlag:
+        IGNORECASE, MULTILINE, DOTALL = "I", "M", "S"
+    class SigmaConfigurationError(Exception):
+        def __init__(self, *a, **k): super().__init__(*a)
+    class _Val:
+        def __init__(self, parts): self.s = list(parts)
+        def __eq__(self, o): return (o == "" and not self.s) if isinstance(o, str) else o is self
+        def __hash__(self): return id(self)
+        def __len__(self): return sum(len(x) if isinstance(x, str) else 1 for x in self.s)
+        def __bool__(self): return bool(self.s)
+    env0 = {"SpecialChars": SpecialChars, "Placeholder": Placeholder, "SigmaRegularExpression": SigmaRegularExpression, "SigmaRegularExpressionFlag": SigmaRegularExpressionFlag,
+            "SigmaConfigurationError": SigmaConfigurationError, "re": _re0}
+    IK0 = {"max_steps": 6000, "behaviours": (SigmaConfigurationError,)}
+    import string as _string
+    parts0 = ["a.b", SpecialChars.WILDCARD_MULTI, "C+1", SpecialChars.WILDCARD_SINGLE, "\u00e9]", SpecialChars.WILDCARD_MULTI, _string.punctuation + " \t"]
+    bracket = lambda t: "".join(f"[{c.lower()}{c.upper()}]" if c.isalpha() else _re0.escape(c) for c in t)  # noqa: E731
+    bad0 = []
+    for method, lit, want_flags in (("plain", _re0.escape, set()), ("ignore_case_flag", _re0.escape, {"I"}), ("ignore_case_brackets", bracket, set())):
+        me0 = _P0(prog, RT, env0, {"method": method, "processing_item": None, "_pipeline": None}, interp_kwargs=IK0)
+        want0 = "".join(lit(x) if isinstance(x, str) else ".*" if x is SpecialChars.WILDCARD_MULTI else "." for x in parts0)
+        try:
+            out0 = _cm0(prog, RT, "apply_string_value", me0, env0, "f", _Val(parts0), interp_kwargs=IK0)
+            if not isinstance(out0, SigmaRegularExpression) or out0.regexp != want0 or out0.flags != want_flags:
+                bad0.append(f"method {method}: {getattr(out0, 'regexp', out0)!r} with flags {sorted(getattr(out0, 'flags', []))} instead of {want0!r} with flags {sorted(want_flags)}")
+            empty0 = _Val([])
+            if _cm0(prog, RT, "apply_string_value", me0, env0, "f", empty0, interp_kwargs=IK0) is not empty0:
+                bad0.append(f"method {method}: the empty string is not passed through")
+        except _R0 as ex:
+            bad0.append(f"method {method}: raises {ex}")
+        try:
+            _cm0(prog, RT, "apply_string_value", me0, env0, "f", _Val(["a", Placeholder("p")]), interp_kwargs=IK0)
+            bad0.append(f"method {method}: a placeholder is rendered into the regular expression instead of being refused")
+        except _R0 as ex:
+            if "SigmaConfigurationError" not in str(ex):
+                bad0.append(f"method {method}: a placeholder raises {ex}")
+    if not bad0:
+        r.ok("C05.R3", g.qual, "string parts through re.escape (or per-character brackets), wildcards → '.*' / '.', placeholders refused (interpreted for the three methods)", g.loc)
     else:
-        r.violation("C05.R3", g.qual, "RegexTransformation.apply_string_value", "sibling regex rendering disagrees: every string part must go through re.escape and wildcards map to '.*'/'.'", g.loc)
+        r.violation("C05.R3", g.qual, "RegexTransformation.apply_string_value", f"sibling regex rendering disagrees: every string part must go through re.escape and wildcards map to '.*'/'.' — {bad0[0]}", g.loc)
     h = prog.func(T + ".SigmaRegularExpression.escape")
     # escape() interpreted (sa.tabulate, Proxy; `re` is the only library) on stand-in expressions over escaped-string lists
     # (order matters: the alternation is ordered), escape characters, the escape-the-escape switch and flags
